@@ -152,6 +152,13 @@ func addDonePairing(c *an.Ctx, rule, key string) bool {
 				return false
 			}, nil)
 			okey := an.Short(fn) + ":Add(" + key + ")"
+			if !okPair {
+				// the Done may be registered by the caller right after this helper returned
+				if why, ok := pairingViaCallers(p, fn, key); ok {
+					c.OK(rule, okey, in.Pos(), "%s", why)
+					return
+				}
+			}
 			if okPair {
 				c.OK(rule, okey, in.Pos(), "every path from Add registers the matching Done (deferred here, or deferred first thing in the goroutine started next)")
 			} else {
@@ -313,4 +320,64 @@ func orSelf(v ssa.Value) ssa.Value {
 		return ssa.Value(nil)
 	}
 	return v
+}
+
+// pairingViaCallers explores every module caller of addFn with addFn (and
+// other same-package helpers) inlined and checks that on every path that
+// returns, each executed Add is matched by an executed Done (a deferred Done
+// runs before the return is reported) or by a goroutine that defers Done.
+func pairingViaCallers(p *an.Prog, addFn *ssa.Function, key string) (string, bool) {
+	sites := p.CallSitesOf(addFn)
+	if len(sites) == 0 {
+		return "", false
+	}
+	callers := map[*ssa.Function]bool{}
+	for _, s := range sites {
+		if _, isGo := s.(*ssa.Go); isGo {
+			return "", false
+		}
+		callers[s.Parent()] = true
+	}
+	n := 0
+	for caller := range callers {
+		ex := &an.Explorer{P: p, NoReturn: noReturn, MaxDepth: 3, MaxVisits: 2,
+			Inline: func(g *ssa.Function) bool { return an.Outer(g).Pkg == an.Outer(caller).Pkg && g != caller }}
+		ex.Effect = func(in ssa.Instruction, st *an.State) string {
+			ci, ok := in.(ssa.CallInstruction)
+			if !ok {
+				return ""
+			}
+			if cc, ok := an.IsCallTo(in, fnWgAdd); ok && groupKey(st.Root(cc.Args[0])) == key {
+				return "Add"
+			}
+			if cc, ok := an.IsCallTo(in, fnWgDone); ok && groupKey(st.Root(cc.Args[0])) == key {
+				return "Done"
+			}
+			if g, ok := in.(*ssa.Go); ok && goBodyDefersDone(p, g, key) {
+				return "Done"
+			}
+			_ = ci
+			return ""
+		}
+		outs := ex.Run(caller, caller.Blocks[0], nil, nil)
+		for _, o := range outs {
+			if o.End == "bound" {
+				continue
+			}
+			a, d := 0, 0
+			for _, e := range o.Effects {
+				if e == "Add" {
+					a++
+				}
+				if e == "Done" {
+					d++
+				}
+			}
+			if a != d {
+				return "", false
+			}
+			n++
+		}
+	}
+	return fmt.Sprintf("the matching Done is registered by the caller: Add and Done balance on all %d paths of %d caller(s) with %s inlined", n, len(callers), an.Short(addFn)), n > 0
 }
